@@ -41,27 +41,37 @@ def describe(d):
 def report(chk, c_rel, c_san, lean_exe, cls, lines, d, origin):
     """Turn a disagreement into a VIOLATION line.  Confirmed (replay = the script) when the real code itself breaks the
     property on it: monitor line, crash, abort or sanitizer report, in the release-like or the sanitizer build."""
-    for exe, tag in ((c_rel, "release build"), (c_san, "ASan+UBSan build")):
+    verdicts = {}
+    for exe, tag in ((c_san, "ASan+UBSan build"), (c_rel, "release build")):
         if exe is None:
             continue
         rc, out, err = poolcorr.run_impl(exe, lines)
         v = poolcorr.verdict(rc, out, err)
         if v:
-            small = poolcorr.shrink(exe, lines)
-            rc2, out2, err2 = poolcorr.run_impl(exe, small)
-            v2 = poolcorr.verdict(rc2, out2, err2) or v
-            _, mo, _ = poolcorr.model_output(lean_exe, cls, small)
-            _, mdef, _ = poolcorr.model_output(lean_exe, cls, small, defective=True)
-            fault = [l for l in mdef if l.startswith("fault")][:1]
-            what = ("memory pool breaks C20 on a valid alloc/free script (%s, %s): %s; the proved model completes the "
-                    "script (%d ops)%s" % (origin, tag, v2, len(small),
-                                           ("; the model of expand with realloc's result dropped / count as byte size "
-                                            "faults with '%s'" % fault[0].split(" |")[0]) if fault else ""))
-            chk.violation(what, script_text(small, ["impl (%s) stderr tail:" % tag] + err2.strip().splitlines()[-12:]), True)
-            return True
+            verdicts[tag] = (exe, v)
+    if verdicts:
+        # shrink under the sanitizers when they see it (the report is at the faulting operation), else on the release build
+        tag = "ASan+UBSan build" if "ASan+UBSan build" in verdicts else "release build"
+        exe, v = verdicts[tag]
+        small = poolcorr.shrink(exe, lines)
+        rc2, out2, err2 = poolcorr.run_impl(exe, small)
+        v2 = poolcorr.verdict(rc2, out2, err2) or v
+        other = ""
+        if tag != "release build":
+            rc3, out3, err3 = poolcorr.run_impl(c_rel, small + ([] if small[-1] == "end" else ["v", "end"]))
+            v3 = poolcorr.verdict(rc3, out3, err3)
+            other = "; release build on the same script: %s" % (v3 or "no crash, monitors silent (the damage is latent)")
+        _, mdef, _ = poolcorr.model_output(lean_exe, cls, small, defective=True)
+        fault = [l for l in mdef if l.startswith("fault")][:1]
+        what = ("memory pool breaks C20 on a valid alloc/free script (%s; %s): %s%s; the proved model completes the "
+                "script (%d ops)%s" % (origin, tag, v2, other, len(small),
+                                       ("; the model of expand with realloc's result dropped / count as byte size "
+                                        "faults with '%s'" % fault[0].split(" |")[0]) if fault else ""))
+        chk.violation(what, script_text(small, ["impl (%s) stderr:" % tag] + poolcorr.err_excerpt(err2)), True)
+        return True
     what = ("mempool exact-state correspondence (pooldrv vs CimbaModel.Mempool.Model) broken (%s) %s; the real pool's own "
             "monitors (patterns, alignment, overlap, sanitizers) report nothing on this script" % (origin, describe(d)))
-    chk.violation(what, script_text(lines, ["impl stderr tail:"] + d.get("err", "").strip().splitlines()[-8:]), False)
+    chk.violation(what, script_text(lines, ["impl stderr:"] + poolcorr.err_excerpt(d.get("err", ""), 8)), False)
     return False
 
 
@@ -108,8 +118,8 @@ def run(chk):
                 bad.append((lines, d, "corpus/pool/%s, %s" % (name, tag)))
                 break
     if quick:
-        plan = [(0, 2500)] * 88 + [(1, 6000)] * 28 + [(2, 12000)] * 10 + [(3, 16000)] * 2
-        plan_san = [(0, 1500)] * 16 + [(1, 5000)] * 6 + [(2, 9000)] * 2
+        plan = [(0, 2500)] * 300 + [(1, 6000)] * 80 + [(2, 12000)] * 30 + [(3, 16000)] * 8
+        plan_san = [(0, 1500)] * 48 + [(1, 5000)] * 16 + [(2, 9000)] * 6 + [(3, 14000)] * 2
     else:
         plan = [(0, 4000)] * 1200 + [(1, 8000)] * 320 + [(1, 40000)] * 48 + [(2, 16000)] * 128 + [(2, 70000)] * 32 + \
                [(3, 26000)] * 32 + [(3, 100000)] * 8
@@ -145,6 +155,7 @@ def run(chk):
             "ops_total": sum(s["ops"] for s in stats), "allocs_total": sum(s["allocs"] for s in stats),
             "reused_total": sum(s["reuse"] for s in stats), "expansions_total": sum(s["expands"] for s in stats),
             "chunk_list_growths_crossed": {str(k): v for k, v in sorted(growth_hist.items())},
+            "reached_target_depth": sum(1 for s in stats if s.get("reached")),
             "max_chunks": max(s["chunks"] for s in stats), "max_live": max(s["max_live"] for s in stats),
             "objects_per_chunk_min_max": [min(s["per_chunk"] for s in stats), max(s["per_chunk"] for s in stats)],
             "CHUNK_LIST_SIZE": cls, "page": poolcorr.PAGE}
@@ -169,11 +180,14 @@ def replay(chk, path):
     impl = vlib.build_impl("rel")
     san = vlib.build_impl("san")
     cls = poolcorr.chunk_list_size(impl) or 64
-    ok, out = vlib.lake_build(["poolmain"])
+    chk.prove(extra_targets=["poolmain"])
     c_rel, c_san = vlib.cc_harness("pooldrv", impl), vlib.cc_harness("pooldrv", san)
     lean_exe = vlib.lean_exe("poolmain")
     lines = poolcorr.read_script(path)
     chk.cov["evaluations"] = 2
+    chk.cov["distinct_nontrivial"] = 2
+    chk.cov["rule"] = "replay of one script on the release-like and the ASan+UBSan build, each compared with the model"
+    chk.cov["samples"] = [{"replay": os.path.basename(path), "ops": len(lines), "head": lines[:3]}]
     chk.cov["trusted_base"] = TRUSTED
     _, mo, _ = poolcorr.model_output(lean_exe, cls, lines)
     if any(l.startswith(("fault", "bad-op", "no-pool")) for l in mo):
@@ -190,4 +204,4 @@ def replay(chk, path):
     if worst:
         d, tag = worst
         chk.violation("replay still fails (%s) %s; real code: %s" % (tag, describe(d), d["verdict"] or "no monitor / sanitizer report"),
-                      script_text(lines, ["impl stderr tail:"] + d["err"].strip().splitlines()[-12:]), bool(d["verdict"]))
+                      script_text(lines, ["impl stderr:"] + poolcorr.err_excerpt(d["err"])), bool(d["verdict"]))
